@@ -1364,6 +1364,29 @@ def gen_C20(tier, rng):
         for ln in c.lines:
             if ln.startswith("r "): dist[ln.split()[1]] += 1
         cases.append(c.done("prog%d" % n, True))
+    # every conversion of every function of <= 3 variables (and a few wider conjunctions / disjunctions of literals):
+    # computed twice in the process and again in other processes -- the conversions go through hash containers of lib-bdd
+    n_ = 0
+    shapes = [(["a", "b", "c"][:nv], tv) for nv in range(0, 4) for tv in gen.all_tvs(nv)]
+    for k_ in range(0, len(shapes), 8):
+        c = Case("c20_c%d" % n_); n_ += 1
+        for vs, tv in shapes[k_:k_ + 8]:
+            r0 = c.r("expr " + pe(gen.expr_of_tv(vs, tv, "dnf"))); r1 = c.r("conv B %d" % r0); r2 = c.r("conv E %d" % r1)
+            r3 = c.r("conv T %d" % r1); r4 = c.r("conv E %d" % r3); r5 = c.r("conv B %d" % r2)
+            for r in (r1, r2, r3, r4, r5): c.q("obs %d" % r)
+            c.q("show %d" % r2); c.q("enum %d" % r1)
+        dist["all_conversions"] += 1
+        cases.append(c.done("conv%d" % k_, True))
+    for width in (2, 3, 4, 5, 6, 8):
+        c = Case("c20_cw%d" % width)
+        vs = gen.NAMES[:width]
+        for e in (gen.A([gen.L(x) for x in vs]), gen.A([gen.L(x) if i % 2 else gen.Nn(gen.L(x)) for i, x in enumerate(vs)]),
+                  gen.O([gen.L(x) for x in vs]), gen.O([gen.A([gen.L(vs[0]), gen.L(x)]) for x in vs[1:]])):
+            r0 = c.r("expr " + pe(e)); r1 = c.r("conv B %d" % r0)
+            for _ in range(3):
+                r2 = c.r("conv E %d" % r1); c.q("show %d" % r2); c.q("obs %d" % r2)
+        dist["literal_clauses"] += 1
+        cases.append(c.done("convw%d" % width, True))
     # history dependence: many short-lived objects; normal forms are computed and dropped at once, so that any
     # hidden cache keyed by addresses or by earlier calls shows up as a result that depends on what ran before
     for n in range(60 if tier == "quick" else 600):
@@ -1420,7 +1443,7 @@ def gen_C20(tier, rng):
         dist["parser_history"] += 1
         cases.append(c.done(c.id, True))
     return {"cases": cases, "exhaustive": False, "dist": dict(dist),
-            "rule": "random programs as for C15; every instruction and every observation (structure, Debug form, enumerations incl. support order and sat point, CSV / rendered / printed text) is computed twice within one process and again in further separate processes with fresh hash seeds; all must be identical, and the operand registers are observed again after all later instructions, in shuffled order; the second execution runs on node-by-node rebuilt copies of all registers (equal arguments, different objects), with aliasing programs (the same register as both operands; results of operations that had nothing to do combined with their origin); plus parser histories (an identifier that starts with a keyword, then the keyword itself, for every keyword spelling), plus streams of 40 short-lived expressions whose normal forms are computed and dropped at once (hidden caches keyed by addresses or earlier calls), plus a source scan for interior mutability; non-trivial = all; distinct = program"}
+            "rule": "random programs as for C15; every instruction and every observation (structure, Debug form, enumerations incl. support order and sat point, CSV / rendered / printed text) is computed twice within one process and again in further separate processes with fresh hash seeds; all must be identical, and the operand registers are observed again after all later instructions, in shuffled order; the second execution runs on node-by-node rebuilt copies of all registers (equal arguments, different objects), with aliasing programs (the same register as both operands; results of operations that had nothing to do combined with their origin); plus every conversion of every function of <= 3 variables and of conjunctions / disjunctions of 2-8 literals; plus parser histories (an identifier that starts with a keyword, then the keyword itself, for every keyword spelling), plus streams of 40 short-lived expressions whose normal forms are computed and dropped at once (hidden caches keyed by addresses or earlier calls), plus a source scan for interior mutability; non-trivial = all; distinct = program"}
 
 
 GENERATORS.update({"C20": gen_C20})
